@@ -106,15 +106,15 @@ static void gen_addr(Node *node) {
     if (opt_fpic) {
       // Thread-local variable
       if (node->var->is_tls) {
-#ifdef CHIBICC_VERIF
-        verif_call_probe();
-#endif
         // __tls_get_addr is an ordinary function: the stack must be
         // 16-byte aligned at the call, also when an odd number of
         // temporaries is pushed.
         bool pad = depth % 2;
         if (pad)
           println("  sub $8, %%rsp");
+#ifdef CHIBICC_VERIF
+        verif_call_probe();
+#endif
         println("  data16 lea %s@tlsgd(%%rip), %%rdi", node->var->name);
         println("  .value 0x6666");
         println("  rex64");
